@@ -303,6 +303,42 @@ example : (childrenAt [("a", PNode.param [(⟨10, some 1⟩ : Entry Nat)]), ("b"
 example : (childrenAt [("a", PNode.param [(⟨10, some 1⟩ : Entry Nat)]), ("b", .param [⟨12, none⟩, ⟨5, some 2⟩]),
       ("sub", .node [("c", .param [⟨11, some 3⟩])])] 12).map (·.1) = ["a", "sub"] := by decide
 
+/-- Access by name — what `node_at.name`, `node_at[name]` and `name in node_at` rest on: with
+    distinct child names, looking `k` up in the node at `d` gives the value at `d` of the child
+    named `k`, and nothing (the access raises, `in` is false) when no child is named `k` or that
+    child is not defined at `d`. -/
+theorem C06_node_lookup (cs : List (String × PNode V)) (d : Int) (k : String)
+    (hnd : (cs.map (·.1)).Nodup) :
+    (childrenAt cs d).lookup k = (cs.lookup k).bind (fun c => c.atInstant d) :=
+  lookup_childrenAt cs d k hnd
+
+/-- `add_child` refuses exactly the names already present; an accepted child comes last, and at
+    every date the node then exposes what it exposed before plus that child iff it is defined. -/
+theorem C06_node_add_child (cs : List (String × PNode V)) (name : String) (c : PNode V) (d : Int) :
+    (addChild cs name c = .ok (cs ++ [(name, c)]) ↔ name ∉ cs.map (·.1)) ∧
+    ((∃ e, addChild cs name c = .error e) ↔ name ∈ cs.map (·.1)) ∧
+    childrenAt (cs ++ [(name, c)]) d =
+      childrenAt cs d ++ (match c.atInstant d with | some s => [(name, s)] | none => []) := by
+  refine ⟨(addChild_ok_iff cs name c).1, (addChild_ok_iff cs name c).2, ?_⟩
+  rw [childrenAt_append]
+  congr 1
+
+/-- `merge` of a node whose child names are distinct and disjoint from the receiver's appends
+    its children in order; at every date the merged node exposes the members of both. -/
+theorem C06_node_merge (cs other : List (String × PNode V))
+    (hdisj : ∀ k ∈ other.map (·.1), k ∉ cs.map (·.1)) (hnd : (other.map (·.1)).Nodup) (d : Int) :
+    mergeChildren cs other = .ok (cs ++ other) ∧
+    childrenAt (cs ++ other) d = childrenAt cs d ++ childrenAt other d :=
+  ⟨mergeChildren_ok cs other hdisj hnd, childrenAt_append cs other d⟩
+
+example : (childrenAt [("a", PNode.param [(⟨10, some 1⟩ : Entry Nat)]), ("2", .param [⟨12, none⟩, ⟨5, some 2⟩])] 12).lookup "2" = none
+    ∧ (childrenAt [("a", PNode.param [(⟨10, some 1⟩ : Entry Nat)]), ("2", .param [⟨12, none⟩, ⟨5, some 2⟩])] 11).lookup "2"
+        = some (Snap.val 2) := by
+  constructor <;> rfl
+example : (mergeChildren [("a", PNode.param [(⟨10, some 1⟩ : Entry Nat)])] [("b", .param []), ("c", .node [])]).toOption.map (·.map (·.1))
+    = some ["a", "b", "c"] := by decide
+example : ∃ e, addChild [("a", PNode.param [(⟨10, some 1⟩ : Entry Nat)])] "a" (.param []) = .error e := ⟨_, rfl⟩
+
 /-! ## Scales -/
 
 /-- Which class of scale is built at `d`. -/
